@@ -90,6 +90,34 @@ def leaves_of(node):
     return [l for (_, c) in node['named'] for l in leaves_of(c)]
 
 
+def has_sub(node):
+    if 'leaf' in node:
+        return False
+    kids = node['seq'] if 'seq' in node else [c for (_, c) in node['named']]
+    return 'sub' in node or any(has_sub(c) for c in kids)
+
+
+def expected_results(node, leaf_results):
+    """merged results by the tree: components in order, the later winning; a subclassed sequence's own result last"""
+    if 'leaf' in node:
+        return dict(leaf_results[node['leaf']['id']])
+    kids = node['seq'] if 'seq' in node else [c for (_, c) in node['named']]
+    r = {}
+    for c in kids:
+        r.update(expected_results(c, leaf_results))
+    if 'sub' in node:
+        r[node['sub']['key']] = node['sub']['val']
+    return r
+
+
+def expected_maxtime(node, leaf_maxtime):
+    if 'leaf' in node:
+        return leaf_maxtime[node['leaf']['id']]
+    kids = node['seq'] if 'seq' in node else [c for (_, c) in node['named']]
+    m = max([0] + [expected_maxtime(c, leaf_maxtime) for c in kids])
+    return max(m, node['sub']['floor']) if 'sub' in node else m
+
+
 def gen_shape(rnd, leaves, depth):
     """distribute the leaves (in order) over a random nesting of lists and dicts"""
     if len(leaves) == 1 and (depth >= 3 or rnd.random() < 0.5):
@@ -107,9 +135,12 @@ def gen_shape(rnd, leaves, depth):
             i += k
         if depth < 2 and rnd.random() < 0.15:
             kids.insert(rnd.randrange(len(kids) + 1), {'seq': []})       # an empty sequence somewhere
-    if rnd.random() < 0.4:
-        return {'named': [['n%d' % j, c] for j, c in enumerate(kids)]}
-    return {'seq': kids}
+    node = {'named': [['n%d' % j, c] for j, c in enumerate(kids)]} if rnd.random() < 0.4 else {'seq': kids}
+    if depth > 0 and rnd.random() < 0.12:
+        # a nested sequence of a SUBCLASS of ProcessSequence that adds a result of its own after those of its components
+        # and insists on a least running time: as a component it must be asked for results() and maximumTime() itself
+        node['sub'] = {'key': rnd.choice(['r1', 'r2', 'seqA', 'seqB']), 'val': rnd.randrange(200, 210), 'floor': rnd.choice([0.0, 1.25, 2.75, 3.25])}
+    return node
 
 
 
@@ -355,9 +386,22 @@ class H(Harness):
                     p.setMaximumTime(l['maxtime'])
                 objs[l['id']] = p
                 return p
+            scls = ep.ProcessSequence
+            if 'sub' in node:
+                sub = node['sub']
+
+                class Tagged(ep.ProcessSequence):
+                    def results(self):
+                        rc = super().results()
+                        rc[sub['key']] = sub['val']
+                        return rc
+
+                    def maximumTime(self):
+                        return max(super().maximumTime(), sub['floor'])
+                scls = Tagged
             if 'seq' in node:
-                return ep.ProcessSequence([mk(c) for c in node['seq']])
-            return ep.ProcessSequence({n: mk(c) for (n, c) in node['named']})
+                return scls([mk(c) for c in node['seq']])
+            return scls({n: mk(c) for (n, c) in node['named']})
 
         top = mk(case['tree'])
         leaves = leaves_of(case['tree'])
@@ -737,10 +781,7 @@ class H(Harness):
                     v.append({'signature': 'infectivity-not-under-the-instances-own-state-variable', 'detail': {'leaf': i, 't': sn['t'], 'vi': x}})
         if obs['complete']:
             # results: union of keys, the later component wins
-            exp = {}
-            for l in leaves:
-                for k, val in obs['leaf_results'][l['id']]:
-                    exp[k] = val
+            exp = expected_results(case['tree'], {i: list(kv) for i, kv in obs['leaf_results'].items()})
             got = dict((k, val) for k, val in obs['results'])
             if set(got) != set(exp):
                 v.append({'signature': 'results-keys-not-union', 'detail': {'got': sorted(got), 'expected': sorted(exp)}})
@@ -750,7 +791,7 @@ class H(Harness):
         lm = obs['leaf_maxtime']
         if case['top_maxtime'] is not None and any(x != case['top_maxtime'] for x in lm.values()):
             v.append({'signature': 'setMaximumTime-not-forwarded', 'detail': lm})
-        if 'leaf' not in case['tree'] and obs['maxtime'] != max([0] + list(lm.values())):
+        if 'leaf' not in case['tree'] and obs['maxtime'] != expected_maxtime(case['tree'], lm):
             v.append({'signature': 'maximumTime-not-the-largest', 'detail': {'got': obs['maxtime'], 'leaves': lm}})
         for k, (t, b) in enumerate(obs['equil']):
             if b != all(obs['leaf_equil'][l['id']][k] for l in leaves):
@@ -764,6 +805,8 @@ class H(Harness):
     def to_coq(self, case, obs):
         if case.get('kind') == 'named_probe':
             return None
+        if has_sub(case['tree']):
+            return None        # subclassed nested sequences (own result, least running time) are outside the model: judged by D
         return self._to_coq(case, obs)
 
     def _to_coq(self, case, obs):
